@@ -12,8 +12,8 @@ def FromSet (ls : List Listener) : Prop := ∀ l ∈ ls, l.from_ ≠ .nilPtr
 
 theorem nsAllowed_ok {m : String → String → Bool} {l : Listener} {routeNS gwNS : String}
     {nss : List String} (hf : l.from_ ≠ .nilPtr) (hn : routeNS ∈ nss) :
-    ∃ b, nsAllowed m l routeNS gwNS nss = .ok b := by
-  unfold nsAllowed
+    ∃ b, nsAllowedPre m l routeNS gwNS nss = .ok b := by
+  unfold nsAllowedPre
   cases hfr : l.from_ with
   | absent => exact ⟨_, rfl⟩
   | nilPtr => exact absurd hfr hf
@@ -25,12 +25,12 @@ theorem nsAllowed_ok {m : String → String → Bool} {l : Listener} {routeNS gw
     · simp [hs, hn]
     · simp [hs]
 
-/-- whatever the namespaces: the only errors of `nsAllowed` are the two mirrored sites. -/
+/-- whatever the namespaces: the only errors of `nsAllowedPre` are the two mirrored sites. -/
 theorem nsAllowed_error {m : String → String → Bool} {l : Listener} {routeNS gwNS : String}
-    {nss : List String} {s : Site} (h : nsAllowed m l routeNS gwNS nss = .error s) :
+    {nss : List String} {s : Site} (h : nsAllowedPre m l routeNS gwNS nss = .error s) :
     (s = .nsLookup ∧ l.from_ = .selector ∧ l.hasSelector = true ∧ routeNS ∉ nss)
       ∨ (s = .nilFrom ∧ l.from_ = .nilPtr) := by
-  unfold nsAllowed at h
+  unfold nsAllowedPre at h
   cases hfr : l.from_ <;> simp [hfr] at h
   · -- selector
     by_cases hs : l.hasSelector = true
@@ -79,24 +79,24 @@ theorem validateParentRef_sub {ref : ParentRef} {gw : Gateway} {att : List Liste
 
 theorem tryAttach_ok {m : String → String → Bool} {routeNS gwNS : String} {nss : List String}
     (hn : routeNS ∈ nss) :
-    ∀ (ls : List Listener), FromSet ls → tryAttach m routeNS gwNS nss ls = .ok ()
+    ∀ (ls : List Listener), FromSet ls → tryAttachPre m routeNS gwNS nss ls = .ok ()
   | [], _ => rfl
   | l :: ls, hf => by
     obtain ⟨b, hb⟩ := nsAllowed_ok (m := m) (gwNS := gwNS) (hf l (List.mem_cons_self ..)) hn
-    simp only [tryAttach, hb]
+    simp only [tryAttachPre, hb]
     exact tryAttach_ok hn ls (fun x hx => hf x (List.mem_cons_of_mem _ hx))
 
 theorem bindRefs_ok {m : String → String → Bool} {gw : Gateway} {nss : List String} {routeNS : String}
     (hf : FromSet gw.listeners) (hn : routeNS ∈ nss) :
-    ∀ (refs : List ParentRef), bindRefs m gw nss routeNS refs = .ok ()
+    ∀ (refs : List ParentRef), bindRefsPre m gw nss routeNS refs = .ok ()
   | [] => rfl
   | ref :: rest => by
-    unfold bindRefs
+    unfold bindRefsPre
     cases hv : validateParentRef ref gw with
     | none => simpa using bindRefs_ok hf hn rest
     | some att =>
       have hsub := validateParentRef_sub hv
-      have : tryAttach m routeNS gw.ns nss att = .ok () :=
+      have : tryAttachPre m routeNS gw.ns nss att = .ok () :=
         tryAttach_ok hn att (fun l hl => hf l (hsub l hl))
       simp only [this]
       exact bindRefs_ok hf hn rest
@@ -107,27 +107,27 @@ def NsClosed (nss : List String) (routes : List Route) : Prop :=
 
 theorem bindRoutes_ok {m : String → String → Bool} {gw : Gateway} {nss : List String}
     (hf : FromSet gw.listeners) :
-    ∀ (rs : List Route), NsClosed nss rs → bindRoutes m gw nss rs = .ok ()
+    ∀ (rs : List Route), NsClosed nss rs → bindRoutesPre m gw nss rs = .ok ()
   | [], _ => rfl
   | r :: rs, hc => by
-    have hr : bindRoute m gw nss r = .ok () := by
-      unfold bindRoute
+    have hr : bindRoutePre m gw nss r = .ok () := by
+      unfold bindRoutePre
       by_cases ha : r.attachable = true
       · simp only [ha, Bool.not_true, Bool.false_eq_true, if_false]
         exact bindRefs_ok hf (hc r (List.mem_cons_self ..) ha) r.refs
       · simp [ha]
-    simp only [bindRoutes, hr]
+    simp only [bindRoutesPre, hr]
     exact bindRoutes_ok hf rs (fun x hx => hc x (List.mem_cons_of_mem _ hx))
 
 /-! errors of the binding are only ever the two mirrored sites -/
 
 theorem tryAttach_error {m : String → String → Bool} {routeNS gwNS : String} {nss : List String} {s : Site} :
-    ∀ (ls : List Listener), tryAttach m routeNS gwNS nss ls = .error s →
+    ∀ (ls : List Listener), tryAttachPre m routeNS gwNS nss ls = .error s →
       (s = .nsLookup ∧ routeNS ∉ nss) ∨ (s = .nilFrom ∧ ∃ l ∈ ls, l.from_ = .nilPtr)
-  | [], h => by simp [tryAttach] at h
+  | [], h => by simp [tryAttachPre] at h
   | l :: ls, h => by
-    unfold tryAttach at h
-    cases hn : nsAllowed m l routeNS gwNS nss with
+    unfold tryAttachPre at h
+    cases hn : nsAllowedPre m l routeNS gwNS nss with
     | error e =>
       simp only [hn] at h
       cases h
@@ -144,44 +144,44 @@ theorem tryAttach_error {m : String → String → Bool} {routeNS gwNS : String}
 
 theorem nsAllowed_indep (m m' : String → String → Bool) (l : Listener) (routeNS gwNS : String)
     (nss : List String) :
-    (nsAllowed m l routeNS gwNS nss).toBool = (nsAllowed m' l routeNS gwNS nss).toBool
-      ∧ ∀ s, nsAllowed m l routeNS gwNS nss = .error s ↔ nsAllowed m' l routeNS gwNS nss = .error s := by
-  unfold nsAllowed
+    (nsAllowedPre m l routeNS gwNS nss).toBool = (nsAllowedPre m' l routeNS gwNS nss).toBool
+      ∧ ∀ s, nsAllowedPre m l routeNS gwNS nss = .error s ↔ nsAllowedPre m' l routeNS gwNS nss = .error s := by
+  unfold nsAllowedPre
   cases l.from_ <;> simp [Except.toBool]
   by_cases hs : l.hasSelector = true <;> by_cases hn : routeNS ∈ nss <;> simp [hs, hn]
 
 theorem tryAttach_indep (m m' : String → String → Bool) (routeNS gwNS : String) (nss : List String) :
-    ∀ ls, tryAttach m routeNS gwNS nss ls = tryAttach m' routeNS gwNS nss ls
+    ∀ ls, tryAttachPre m routeNS gwNS nss ls = tryAttachPre m' routeNS gwNS nss ls
   | [] => rfl
   | l :: ls => by
     have h := (nsAllowed_indep m m' l routeNS gwNS nss).2
-    unfold tryAttach
-    cases h1 : nsAllowed m l routeNS gwNS nss with
+    unfold tryAttachPre
+    cases h1 : nsAllowedPre m l routeNS gwNS nss with
     | error e =>
       have := (h e).1 h1
       simp [this]
     | ok b =>
-      cases h2 : nsAllowed m' l routeNS gwNS nss with
+      cases h2 : nsAllowedPre m' l routeNS gwNS nss with
       | error e =>
         have := (h e).2 h2
         rw [h1] at this; cases this
       | ok b' => simpa using tryAttach_indep m m' routeNS gwNS nss ls
 
 theorem bindRefs_indep (m m' : String → String → Bool) (gw : Gateway) (nss : List String) (routeNS : String) :
-    ∀ refs, bindRefs m gw nss routeNS refs = bindRefs m' gw nss routeNS refs
+    ∀ refs, bindRefsPre m gw nss routeNS refs = bindRefsPre m' gw nss routeNS refs
   | [] => rfl
   | ref :: rest => by
-    unfold bindRefs
+    unfold bindRefsPre
     cases validateParentRef ref gw with
     | none => simpa using bindRefs_indep m m' gw nss routeNS rest
     | some att =>
       simp only [tryAttach_indep m m' routeNS gw.ns nss att, bindRefs_indep m m' gw nss routeNS rest]
 
 theorem bindRoutes_indep (m m' : String → String → Bool) (gw : Gateway) (nss : List String) :
-    ∀ rs, bindRoutes m gw nss rs = bindRoutes m' gw nss rs
+    ∀ rs, bindRoutesPre m gw nss rs = bindRoutesPre m' gw nss rs
   | [] => rfl
   | r :: rs => by
-    simp only [bindRoutes, bindRoute, bindRefs_indep m m' gw nss r.ns r.refs, bindRoutes_indep m m' gw nss rs]
+    simp only [bindRoutesPre, bindRoutePre, bindRefs_indep m m' gw nss r.ns r.refs, bindRoutes_indep m m' gw nss rs]
 
 /-! ### host path rules -/
 
